@@ -5,7 +5,8 @@ use crate::detectors::all as all_detectors;
 use crate::project::project_source;
 use serde_json::{json, Value};
 
-pub const PATTERN_DETECTORS: [&str; 24] = [
+pub const PATTERN_DETECTORS: [&str; 30] = [
+    "string_errors", "short_revert_string", "safe_math_pre_080", "safe_math_post_080", "pack_storage_variables", "pack_struct_variables",
     "address_balance", "address_zero", "bool_equals_bool", "assign_update_array_value", "cache_array_length",
     "increment_decrement", "multiple_require", "optimal_comparison", "shift_math", "solidity_keccak256", "solidity_math",
     "payable_function", "private_constant", "private_vars_leading_underscore", "private_func_leading_underscore", "constructor_order",
